@@ -40,8 +40,23 @@ instance (fx : Fixes) (types : List Int) (offs : Option (List Int)) (n idx : Nat
 instance {α} : NoCtx (notImpl : R α) := by unfold notImpl; noctx
 instance {α} : NoCtx (rejected : R α) := by unfold rejected; noctx
 instance (ty : IntTy) (x : Int) : NoCtx (intoInt ty x) := by unfold intoInt; noctx
-instance (fx : Fixes) (v : Option Bits) (vals : List Int) (idx : Nat) : NoCtx (codecRead fx v vals idx) := by
+instance (ty : PrimTy) (x : Int) : NoCtx (dateRepr ty x) := by
+  unfold dateRepr Codec.dateToString; dsimp only; noctx
+instance (u : SaModel.TimeUnit) (x : Int) : NoCtx (timeRepr u x) := by
+  unfold timeRepr Codec.timeToString; noctx
+instance (u : SaModel.TimeUnit) (tz : Option String) (x : Int) : NoCtx (timestampRepr u tz x) := by
+  unfold timestampRepr Codec.timestampToString; noctx
+instance (r : R Bytes) [NoCtx r] : NoCtx (ownedStr r) := by unfold ownedStr; noctx
+instance (r : R Bytes) [NoCtx r] : NoCtx (ownedBytes r) := by unfold ownedBytes; noctx
+instance (fx : Fixes) (fmt : Int → R DVal) [∀ x, NoCtx (fmt x)] (v : Option Bits) (vals : List Int) (idx : Nat) :
+    NoCtx (codecRead fx fmt v vals idx) := by
   unfold codecRead; noctx
+theorem noCtx_strVariant : ∀ (vs : TVariants) (s : Bytes), NoCtx (strVariant vs s)
+  | .nil, _ => by unfold strVariant; infer_instance
+  | .cons n k rest, s => by
+    have := noCtx_strVariant rest s
+    unfold strVariant; noctx
+instance (vs : TVariants) (s : Bytes) : NoCtx (strVariant vs s) := noCtx_strVariant vs s
 instance (fx : Fixes) (m : Method) (a : Arr) (idx : Nat) : NoCtx (scalar fx m a idx) := by unfold scalar; noctx
 instance (t : Target) (d : DVal) : NoCtx (accept t d) := by unfold accept; noctx
 instance (t : Target) (b : UInt8) : NoCtx (u8As t b) := by unfold u8As; noctx
